@@ -362,3 +362,66 @@ where
         self.raft_core.lock().await.current_term()
     }
 }
+
+// ---------------------------------------------------------------------------------------------
+// Verification hook (compiled only with `--cfg d_engine_verif`; add-only, no behaviour change).
+// ---------------------------------------------------------------------------------------------
+#[cfg(d_engine_verif)]
+impl<T> Node<T>
+where
+    T: TypeConfig,
+{
+    /// Assemble a `Node` around an existing `Raft` with the client-API wiring of
+    /// `NodeBuilder::build` (ReadActor spawned on the current runtime, `StandaloneReadHandle`
+    /// over it), but with a caller-supplied command channel, so that an out-of-tree harness can
+    /// call the `RaftClientService` handlers in-process and play the Raft loop's part on
+    /// `cmd_tx`'s receiver. Must be called inside a tokio runtime.
+    pub fn verif_new(
+        raft: Raft<T>,
+        cmd_tx: mpsc::Sender<d_engine_core::ClientCmd>,
+        state_machine: Arc<T::SM>,
+        read_lease: Arc<ReadLease>,
+        shutdown_signal: watch::Receiver<()>,
+    ) -> Self {
+        let node_config = raft.ctx.node_config.clone();
+        let membership = raft.ctx.membership.clone();
+        let event_tx = raft.event_sender();
+        let (rpc_ready_tx, _rpc_ready_rx) = watch::channel(false);
+        let (_membership_tx, membership_rx) =
+            watch::channel(crate::membership::MembershipSnapshot::default());
+        let (read_tx, read_rx) = mpsc::channel(node_config.raft.read_actor.channel_capacity);
+        let max_drain = node_config.raft.read_actor.max_drain;
+        let read_actor_handle = tokio::spawn(crate::read_actor::run_read_actor(
+            read_rx,
+            Arc::clone(&read_lease),
+            state_machine,
+            max_drain,
+        ));
+        let read_handle = crate::api::StandaloneReadHandle::new(Some(read_tx), cmd_tx.clone());
+        let node = Node::<T> {
+            node_id: raft.node_id,
+            raft_core: Arc::new(Mutex::new(raft)),
+            membership,
+            event_tx,
+            read_handle,
+            cmd_tx,
+            ready: AtomicBool::new(false),
+            rpc_ready_tx,
+            leader_notifier: LeaderNotifier::new(),
+            membership_rx,
+            node_config,
+            #[cfg(feature = "watch")]
+            watch_registry: None,
+            #[cfg(feature = "watch")]
+            _watch_dispatcher_handle: None,
+            sm_worker_handle: std::sync::Mutex::new(None),
+            read_actor_handle: std::sync::Mutex::new(Some(read_actor_handle)),
+            _commit_handler_handle: None,
+            _lease_cleanup_handle: None,
+            shutdown_signal,
+            read_lease,
+        };
+        node.set_rpc_ready(true);
+        node
+    }
+}
